@@ -21,7 +21,7 @@ func init() {
 			"Non-trivial: P's denotation is non-empty; distinct by (expression text, document, node, identity).",
 		Assume:        []string{"reference evaluator internal/xref for the left sides; identities themselves are engine-vs-engine"},
 		MinNontrivial: tierN(10000, 150000),
-		Required:      []string{"identity:abs", "identity:compose", "identity:wrap", "identity:truth", "shape:absoluteQuery", "shape:unionQuery", "shape:booleanQuery"},
+		Required:      []string{"identity:abs", "identity:compose", "identity:wrap", "identity:truth"},
 		Families: []Family{
 			witnessFamily("C13"),
 			{Name: "abs", N: tierN(10000, 400000), Run: c13Abs},
